@@ -48,7 +48,7 @@ BASE_SPEC = [
 ]
 
 VARIANTS = ('base', 'passport_cascade', 'group_cascade', 'passport_optional', 'car_optional', 'car_nocascade',
-            'group_owner', 'profile_pk', 'cascade_mix')
+            'group_owner', 'profile_pk', 'cascade_mix', 'passport_req_cascade')
 
 
 def spec_variant(name):
@@ -68,6 +68,13 @@ def spec_variant(name):
     elif name == 'group_cascade':
         attrs, i = attr('Group', 'members')
         attrs[i][2]['cascade_delete'] = True
+    elif name == 'passport_req_cascade':
+        # the owner side is Required and cascades (Person.passport = Required(Passport, cascade_delete=True)),
+        # the other side is optional: the foreign key column lives in Person
+        attrs, i = attr('Person', 'passport')
+        attrs[i] = ('passport', 'req', dict(attrs[i][2], cascade_delete=True))
+        attrs, i = attr('Passport', 'person')
+        attrs[i] = ('person', 'opt', attrs[i][2])
     elif name == 'cascade_mix':
         # a cascade that runs through several levels (group -> members -> passport) and can be refused late
         # (a member that owns a car): everything the cascade already deleted has to come back
